@@ -166,6 +166,32 @@ Definition simulate_flat {nb nf ne} (deviation : bool) (true_initials : nat -> b
   let xi0 := mrowmask true_initials init_xi in            (* zero_false_init_xi *)
   flat_run T K' P xi0 us (anticipated_impacts P X J Ru vs).
 
+(* simulate(..., force_split_frames=True)  (simulators.py::create_frames, frames.py::SplitFrame):
+   a new frame starts in the first period and in every period with a non-zero unanticipated shock.  A frame is a flat
+   simulation from its start to the END OF THE BASE SPAN, with the unanticipated shocks after its first period pruned and
+   the anticipated impacts of its own columns; only the periods a frame owns (up to the next frame start) are written
+   back.  [plan] = what the current frame computed for the periods still to come. *)
+Fixpoint split_go {nb nf ne} (T : mx O nb nb) (K : mx O nb 1) (P : mx O nb ne) (X : mx O nb nf) (J : mx O nf nf)
+    (Ru : mx O nf ne) (first : bool) (xi : mx O nb 1) (plan : list (mx O nb 1)) (us vs : list (mx O ne 1))
+    : list (mx O nb 1) :=
+  match us, vs with
+  | u :: us', v :: vs' =>
+      let fr := if first || negb (mis0 u)
+                then flat_run T K P xi (u :: map (fun _ => mzero O ne 1) us') (anticipated_impacts P X J Ru vs)
+                else plan in
+      match fr with
+      | x :: rest => x :: split_go T K P X J Ru false x rest us' vs'
+      | [] => []
+      end
+  | _, _ => []
+  end.
+
+Definition simulate_split {nb nf ne} (deviation : bool) (true_initials : nat -> bool)
+    (T : mx O nb nb) (P : mx O nb ne) (K : mx O nb 1) (X : mx O nb nf) (J : mx O nf nf) (Ru : mx O nf ne)
+    (init_xi : mx O nb 1) (us vs : list (mx O ne 1)) : list (mx O nb 1) :=
+  let K' := if deviation then mzero O nb 1 else K in
+  split_go T K' P X J Ru true (mrowmask true_initials init_xi) [] us vs.
+
 (* _simulate_measurement: y[t] = Z @ xi[t] + H @ w[t] + D   (D = 0 when deviation) *)
 Definition simulate_measurement {nb ny nw} (deviation : bool) (Z : mx O ny nb) (H : mx O ny nw) (D : mx O ny 1)
     (xis : list (mx O nb 1)) (ws : list (mx O nw 1)) : list (mx O ny 1) :=
@@ -328,10 +354,11 @@ Definition close_opt (m : dyad) (e : option dyad) : bool := match e with Some x 
 Definition col_close (m : M) (e : list (option dyad)) : bool :=
   Nat.eqb (length m) (length e) && forallb (fun p => close_opt (hd d0 (fst p)) (snd p)) (combine m e).
 
-Definition check_simulation (nb nf ne ny nw : nat) (deviation : bool) (true_init : list bool)
+Definition check_simulation (split : bool) (nb nf ne ny nw : nat) (deviation : bool) (true_init : list bool)
     (T P K X J Ru Z H D : raw) (init_xi : raw) (us vs ws : list raw)
     (exp_xi exp_y : list (list (option dyad))) : list nat :=
-  let xis := @simulate_flat DO nb nf ne deviation (fun i => nth i true_init false) (dm_of T) (dm_of P) (dm_of K)
+  let sim := if split then @simulate_split DO nb nf ne else @simulate_flat DO nb nf ne in
+  let xis := sim deviation (fun i => nth i true_init false) (dm_of T) (dm_of P) (dm_of K)
                (dm_of X) (dm_of J) (dm_of Ru) (dm_of init_xi) (map dm_of us) (map dm_of vs) in
   let ys := @simulate_measurement DO nb ny nw deviation (dm_of Z) (dm_of H) (dm_of D) xis (map dm_of ws) in
   let bx := Nat.eqb (length xis) (length exp_xi) :: map (fun p => col_close (fst p) (snd p)) (combine xis exp_xi) in
